@@ -66,6 +66,7 @@ theorem ensures_parseStanza (o : POracle) (fuel : Nat) : Ensures (parseStanza o 
   | none => exact Ensures.fail _
   | some ans =>
     cases ans with
+    | bindingPanic => exact Ensures.fail _
     | invalid r c off => exact Ensures.fail _
     | valid patterns caps =>
       dsimp only
